@@ -18,7 +18,7 @@
    line): explored with the independent renderer, and the reader model must agree with the library on each such file. *)
 From Coq Require Import List QArith Lia.
 Import ListNotations.
-From QSX Require Import IO.Num IO.NumSound IO.Bounds IO.Ranges IO.Equiv IO.Lex IO.LpWrite IO.LpRead IO.LpTok IO.LpExpr IO.LpRows IO.LpBounds IO.LpFinish IO.LpRoundtrip IO.LpTotal.
+From QSX Require Import IO.Num IO.NumSound IO.Bounds IO.Ranges IO.Equiv IO.Lex IO.LpWrite IO.LpRead IO.LpTok IO.LpExpr IO.LpRows IO.LpBounds IO.LpFinish IO.LpRoundtrip IO.LpTotal IO.LpBytes.
 Local Open Scope Q_scope.
 
 Theorem C10_read_denotes :
@@ -105,3 +105,13 @@ Print Assumptions C10_lp_written_file_partial.
 Theorem C10_lp_reader_total : forall strict M ls, read_lp_res strict M ls <> PrFuel.
 Proof. exact fuel_suffices. Qed.
 Print Assumptions C10_lp_reader_total.
+
+(* the reader sees a line only up to its first newline, NUL or backslash, and reading the bytes of a file is reading its lines *)
+Theorem C10_lp_reader_cut : forall strict M ls, read_lp_res strict M (map cutline ls) = read_lp_res strict M ls.
+Proof. exact read_lp_res_cut. Qed.
+Print Assumptions C10_lp_reader_cut.
+
+Theorem C10_lp_reader_bytes :
+  forall strict M ls, Forall line_ok ls -> read_lp_res strict M (split_lines (file_bytes ls)) = read_lp_res strict M ls.
+Proof. exact read_lp_bytes. Qed.
+Print Assumptions C10_lp_reader_bytes.
